@@ -5,9 +5,9 @@ CONSTANTS Names <- NamesMB Depth = 3 Vals <- ValsX Sep = 46 Design = "list" Base
   Routes <- RAll Cfgs <- CfgTV SingleKinds <- SKBoth PrePaths <- PreC
   LoadKinds <- LoadQ TwoFiles = FALSE EnvCalls <- EnvQ ArgCalls <- ArgsQ ClearLists <- ClearQ
   MsgSets <- MSetQ MsgGets <- MGetQ NodeBases <- BasesQ FputSeps <- None
-  MaxOps = 2 MaxArr = 2 SinglesFirst = FALSE Observe = TRUE
+  MaxOps = 2 MaxArr = 2 SingleWhen = "any" QuoteSet <- AllQuotes Observe = TRUE
 CONSTRAINT Bound
-VIEW ViewX
+VIEW ViewG
 ACTION_CONSTRAINT EmitX
 INVARIANTS Refines PrefixClosed
 PROPERTIES ArrivalProp SingleProp
